@@ -1161,7 +1161,14 @@ impl TryFrom<&mut Peekable<Lexer>> for ParserNode {
                             // macros are unsupported
                             // we will just ignore them until the we reach endmacro
                             loop {
-                                let next = lex.get_any()?;
+                                // A region that is never closed is reported
+                                // at its directive
+                                let Some(next) = lex.lexer.next() else {
+                                    return Err(LexError::IncompleteStatement(Box::new(
+                                        next_node,
+                                    )));
+                                };
+                                let next = next?;
                                 if let TokenType::Directive(dir2) = next.token_type() {
                                     if let Ok(new_dir) = DirectiveToken::from_str(dir2) {
                                         if new_dir == DirectiveToken::EndMacro {
